@@ -208,12 +208,17 @@ def size(dims):
     return int(np.prod(eff(dims), dtype=int)) if eff(dims) else 1
 
 
+class TooBig(Exception):
+    """A literal beyond `TGen.maxlit` entries was requested (only when maxlit is set)."""
+
+
 class TGen:
     """Typed random tensor expressions.  Every generator returns (expr, dom, cod, bound)
     with dom/cod lists of effective dims and `bound` an upper bound of |re|+|im| of entries."""
 
     def __init__(self, rng, maxdim=3, maxwires=3, malformed=0.08):
         self.rng, self.maxdim, self.maxwires, self.malformed = rng, maxdim, maxwires, malformed
+        self.maxlit = None      # set by bounded_texpr: refuse literals with more entries
 
     def dims(self, lo=0, hi=None):
         return rand_dims(self.rng, self.maxdim, lo, self.maxwires if hi is None else hi)
@@ -222,6 +227,8 @@ class TGen:
         r = self.rng
         dom = self.dims() if dom is None else dom
         cod = self.dims() if cod is None else cod
+        if self.maxlit is not None and size(dom) * size(cod) > self.maxlit:
+            raise TooBig()
         data = rand_entries(r, size(dom) * size(cod))
         return ("T", list(dom), list(cod), data), eff(dom), eff(cod), 2.0
 
@@ -403,8 +410,13 @@ def bounded_texpr(gen, depth, work=400000, peak=20000, tries=30):
     """A TGen expression within the model's cost budget: regenerate (same rng, so still
     a function of the seed) until the estimate fits.  Returns (gen-tuple, rejected)."""
     rejected = 0
+    gen.maxlit = peak
     for _ in range(tries):
-        out = gen.expr(depth)
+        try:
+            out = gen.expr(depth)
+        except TooBig:
+            rejected += 1
+            continue
         _, _, w, p = texpr_cost(out[0])
         if w <= work and p <= peak:
             return out, rejected
@@ -446,25 +458,71 @@ def exact_eq(a, b):
 
 # ------------------------------------------------------------------ driver helper
 
-def ask_many(drv, lines):
+def ask_many(drv, lines, sink=None):
     """Pipelined questions with a writer thread: tensor lines are long, and writing a whole
-    chunk before reading (common.Driver.ask_many) can fill both pipes and deadlock."""
+    chunk before reading (common.Driver.ask_many) can fill both pipes and deadlock.
+    Answers are appended to `sink` (a fresh list by default), which is returned."""
     import threading
 
     def writer():
-        for k in range(0, len(lines), 50):
-            drv.proc.stdin.write("".join(l + "\n" for l in lines[k:k + 50]))
-            drv.proc.stdin.flush()
+        try:
+            for k in range(0, len(lines), 50):
+                drv.proc.stdin.write("".join(l + "\n" for l in lines[k:k + 50]))
+                drv.proc.stdin.flush()
+        except (BrokenPipeError, ValueError, OSError):
+            pass                    # the reader notices the dead process
     th = threading.Thread(target=writer)
     th.start()
-    out = []
-    for _ in lines:
-        o = drv.proc.stdout.readline()
-        if not o:
-            raise RuntimeError("dvdriver died")
-        out.append(o.rstrip("\n"))
+    out = [] if sink is None else sink
+    try:
+        for _ in lines:
+            o = drv.proc.stdout.readline()
+            if not o:
+                raise RuntimeError("dvdriver died")
+            out.append(o.rstrip("\n"))
+    except BaseException:
+        try:                        # unblock the writer before joining it
+            drv.proc.kill()
+        except Exception:
+            pass
+        th.join()
+        raise
     th.join()
     return out
+
+
+class Asker:
+    """Owns the driver process for a whole run.  If the process disappears (killed from
+    outside, e.g. memory pressure on a shared machine) it is restarted once per question and the
+    remaining questions are asked again; a question that kills a fresh driver as well is a
+    crash of the model on that input and is raised."""
+
+    def __init__(self):
+        from common import Driver
+        self.Driver = Driver
+        self.drv = Driver()
+        self.restarts = 0
+
+    def ask_many(self, lines):
+        out = []
+        retried_at = -1
+        while len(out) < len(lines):
+            try:
+                ask_many(self.drv, lines[len(out):], sink=out)
+            except RuntimeError:
+                if len(out) == retried_at:
+                    raise RuntimeError("dvdriver dies on: " + lines[len(out)][:300])
+                retried_at = len(out)
+                self.restarts += 1
+                try:
+                    self.drv.proc.kill()
+                except Exception:
+                    pass
+                self.drv = self.Driver()
+        return out
+
+    def close(self):
+        self.drv.close()
 
 
 # ------------------------------------------------------------------ functor cases (C09)
@@ -635,14 +693,14 @@ def case_cost(case):
     return worst, total
 
 
-def rigid_case(rng, maxdim=3, maxw=4, maxdepth=6, limit=3000, work=150000):
+def rigid_case(rng, maxdim=3, maxw=4, maxdepth=6, limit=3000, work=150000, multi=0.2):
     """Random rigid diagram (generators, daggered generators, swaps, cups, caps) with a random
     interpretation; dimensions are lowered until the evaluation is small enough."""
     names = ["a", "b", "c", "d"]
     g = Gen(rng, rigid=True, maxw=maxw, names=names)
     dom = g.ty(0, min(3, maxw))
     e, _scans = g.grow(dom, rng.randint(0, maxdepth))
-    ob = choose_ob(rng, names, maxdim)
+    ob = choose_ob(rng, names, maxdim, multi=multi)
     case = FCase("rigid", e, ob, [], rng.choice(["dict", "dict", "call"]),
                  rng.choice(["dict", "dict", "call"]))
     for _ in range(40):
